@@ -44,6 +44,26 @@ PROPS = {
             "known findings are explained, not pattern-matched: lister only if the pass did exactly the documented rewrite and omitting it removes the disagreement; e+ only if reading e+ as e ~ e* removes it",
         ],
     ),
+    "C06": dict(
+        runs=BOTH_CONFIGS("c06"),
+        rule=("Part A: stack-free grammars from three families (rule cycles r0->..->r0 through every leftmost/non-leftmost operator context; "
+              "repetitions and implicit WHITESPACE/COMMENT over possibly-empty bodies; generator G(no-stack) with 45% unconstrained leftmost "
+              "references); every grammar pest ACCEPTS is parsed by the VM from every rule on all strings up to a length bound over its alphabet "
+              "while online monitors watch for a rule re-entered at the same position with the same atomicity (hook H3 + VM listener abort) and "
+              "for a repeat iteration that does not move (hook H1c). Part B: G(guarded) grammars, which satisfy the statement's premise by "
+              "construction, must be accepted. evaluations = monitored parses + acceptance checks; distinct non-trivial = distinct accepted "
+              "grammar texts (A) and distinct guarded grammar texts (B)."),
+        level_text=("Exploration: the validator's verdict is confronted with what actually happens at run time (A) and with grammars that are "
+                    "well-formed by construction (B). Non-termination is detected from hook events in logical time (never from a wall clock); a call "
+                    "limit bounds each parse and reaching it is inconclusive."),
+        level_note="Trusted: the re-entry criterion (same rule, position and atomicity => the deterministic stack-free evaluation repeats forever) and the generator's guarded profile as an encoding of the premise.",
+        technique="runtime monitoring: online trace monitors (rule re-entry without progress, non-advancing repetition) on the real VM over validator-accepted grammars; acceptance oracle on premise-satisfying grammars",
+        assumptions=[
+            "re-entry at the same position with a DIFFERENT atomicity terminates (atomicity can change at most twice) and is not flagged",
+            "grammars with tags on silent/built-in rules are not generated for part B (rejected for a documented, unrelated reason)",
+            "known finding c06-left-recursion-through-implicit-skip is explained only when the references written in the grammar form no leftmost cycle",
+        ],
+    ),
 }
 
 HOOK_COMMITS = [
